@@ -96,6 +96,7 @@ def like_table(p, v):
         t(f"strformat:{spec}", lambda x, spec=spec: ("{:" + spec + "}").format(x))
     t("percent-d", lambda x: "%d" % x); t("percent-s", lambda x: "%s" % x); t("percent-5.1f", lambda x: "%5.1f" % x)
     t("str", str)
+    t("eq-self", lambda x: x == x); t("ne-self", lambda x: x != x); t("in-own-list", lambda x: [x].count(x))
     t("dictkey", lambda x: {x: 1}.get(v if v == v else x, "miss"))
     t("sorted", lambda x: sorted([x, v])[0] == sorted([v, v])[0] if v == v else True)
     t("neg", lambda x: -x); t("abs", abs); t("int", int); t("float", float); t("len", len)
